@@ -97,7 +97,7 @@ func pureCases(w *sim.World, out *c.Out, r *c.Rng, n int) {
 	k := w.Keeper()
 	for i := 0; i < n; i++ {
 		ctx, _ := w.Base.CacheContext()
-		ty := r.Intn(len(sim.Types))
+		ty := r.Intn(sim.NBase)
 		t := sim.Types[ty]
 		price := randPrice(r)
 		col := randColl(r, t.CF)
@@ -188,7 +188,7 @@ func blockCases(w *sim.World, out *c.Out, r *c.Rng, n int) {
 	k := w.Keeper()
 	for i := 0; i < n; i++ {
 		ctx, _ := w.Base.CacheContext()
-		ty := r.Intn(len(sim.Types))
+		ty := r.Intn(sim.NBase)
 		t := sim.Types[ty]
 		L := randRatio(r)
 		col := randColl(r, t.CF)
@@ -314,6 +314,153 @@ func directed(w *sim.World, out *c.Out, r *c.Rng) {
 	}
 }
 
+// governance moves the liquidation ratio while CDPs exist: "seized only when under-collateralised" and "no
+// draw / withdrawal leaves it below the ratio" are about the ratio IN FORCE at the time of the action
+func govDirected(w *sim.World, out *c.Out, r *c.Rng) {
+	setRatio := func(ty int, L string) func(p *cdptypes.Params) string {
+		return func(p *cdptypes.Params) string {
+			sim.FindCollateral(p, ty).LiquidationRatio = sdk.MustNewDecFromStr(L)
+			return "ratio=" + L
+		}
+	}
+	// raised by one ulp over a position sitting exactly at the old ratio: liquidatable in the block after the change
+	{
+		s := w.NewSeq(out, "c05.op", -4, r.Fork(9104), sim.DefaultParams())
+		s.PostPrice(0, sdk.MustNewDecFromStr("0.5"), false)
+		s.PostPrice(1, sdk.MustNewDecFromStr("0.5"), false)
+		s.NextBlock(1, "gov-setup")
+		s.Create(3, 0, new(big.Int).Mul(bi(30), sim.Pow10(8)), 2, bi(10000000), 0, "gov-at-ratio")
+		s.NextBlock(0, "gov-same-ratio")
+		if len(s.Pre().Cdps) != 1 {
+			out.Violation("cdp-block-liquidation-seized-at-or-above-ratio in the directed governance scenario (before the change)")
+		}
+		s.Pending = setRatio(0, "1.500000000000000001")
+		s.NextBlock(0, "gov-ratio-raised-1ulp")
+		if len(s.Pre().Cdps) != 0 {
+			out.Violation("cdp-block-liquidation-ignores-the-liquidation-ratio-in-force: position at 1.5 survived the block after the ratio was raised to 1.500000000000000001")
+		}
+	}
+	// lowered under a position that a price drop put below the OLD ratio: safe under the ratio in force, must not
+	// be seized in the block after the change (nor by a keeper); raised back: seized; users are gated by the new ratio
+	{
+		s := w.NewSeq(out, "c05.op", -5, r.Fork(9105), sim.DefaultParams())
+		s.PostPrice(0, sdk.MustNewDecFromStr("0.5"), false)
+		s.PostPrice(1, sdk.MustNewDecFromStr("0.5"), false)
+		np := s.P
+		np.CollateralParams = append(cdptypes.CollateralParams{}, s.P.CollateralParams...)
+		np.CollateralParams[0].StabilityFee = sdk.OneDec() // no interest: the ratios below are exact
+		s.SetParamsNow(np, "fee-one")
+		s.NextBlock(1, "gov-setup")
+		s.Create(3, 0, new(big.Int).Mul(bi(30), sim.Pow10(8)), 2, bi(10000000), 0, "gov-at-ratio")
+		s.Create(4, 0, new(big.Int).Mul(bi(60), sim.Pow10(8)), 2, bi(10000000), 0, "gov-safe")
+		s.PostPrice(0, sdk.MustNewDecFromStr("0.49"), false)
+		s.PostPrice(1, sdk.MustNewDecFromStr("0.49"), false) // CR = 1.47 < 1.5
+		s.Pending = setRatio(0, "1.47")
+		s.NextBlock(5, "gov-ratio-lowered-with-price-drop")
+		if len(s.Pre().Cdps) != 2 {
+			out.Violation("cdp-block-liquidation-ignores-the-liquidation-ratio-in-force: position at 1.47 seized in the block after the ratio was lowered to 1.47")
+		}
+		if cls, _ := s.Liquidate(7, 3, 0, "gov-keeper-after-lowering"); cls == kapp.OK {
+			out.Violation("cdp-keeper-liquidation-ignores-the-liquidation-ratio-in-force: position at 1.47 seized by MsgLiquidate under ratio 1.47")
+		}
+		// the owner of the safe position may now draw down to 1.47 …
+		s.Draw(4, 0, bi(10000000), 0, "gov-draw-under-lowered-ratio") // 60·0.49/20 = 1.47
+		if cls, _ := s.Draw(4, 0, bi(1), 0, "gov-draw-below-lowered-ratio"); cls == kapp.OK {
+			out.Violation("cdp-draw-ignores-the-liquidation-ratio-in-force")
+		}
+		s.Pending = setRatio(0, "1.5")
+		s.NextBlock(5, "gov-ratio-raised-back")
+		if len(s.Pre().Cdps) != 0 {
+			out.Violation("cdp-block-liquidation-ignores-the-liquidation-ratio-in-force: positions at 1.47 survived the block after the ratio was raised back to 1.5")
+		}
+	}
+	// a removed type: neither the block liquidator nor a keeper touches its CDPs, whatever the price does; listed
+	// again with a ratio above the position it is seized in the first block
+	{
+		s := w.NewSeq(out, "c05.op", -6, r.Fork(9106), sim.DefaultParams())
+		col := new(big.Int).Mul(bi(100), sim.Pow10(6))
+		s.Create(4, 3, col, 4, bi(20000000), 0, "gov")
+		s.Deposit(4, 8, 3, bi(3000000), 4, "gov")
+		s.PostPrice(4, sdk.MustNewDecFromStr("0.01"), false)
+		s.PostPrice(5, sdk.MustNewDecFromStr("0.01"), false)
+		s.Pending = func(p *cdptypes.Params) string {
+			var cps cdptypes.CollateralParams
+			for _, e := range p.CollateralParams {
+				if e.Type != "xrp-a" {
+					cps = append(cps, e)
+				}
+			}
+			p.CollateralParams = cps
+			return "type-removed-with-cdps"
+		}
+		s.NextBlock(5, "gov-removed-crash")
+		s.Liquidate(7, 4, 3, "gov-removed")
+		s.NextBlock(3600, "gov-removed")
+		if len(s.Pre().Cdps) != 1 {
+			out.Violation("cdp-of-a-removed-collateral-type-was-seized")
+		}
+		s.Pending = func(p *cdptypes.Params) string {
+			p.CollateralParams = append(p.CollateralParams, sim.DefaultCollateral(3))
+			return "type-readded-with-cdps"
+		}
+		s.NextBlock(5, "gov-readded")
+		if len(s.Pre().Cdps) != 0 {
+			out.Violation("cdp-block-liquidation-missed-an-undercollateralised-cdp-after-its-type-was-listed-again")
+		}
+	}
+	// the liquidation market is switched to a market with a higher price in the same boundary in which the old
+	// liquidation market crashes: under the parameters in force the position is safe — no block seizure, keeper
+	// refused (the keeper was also refused before the change); switched back: seized
+	{
+		s := w.NewSeq(out, "c05.op", -7, r.Fork(9107), sim.DefaultParams())
+		col := new(big.Int).Mul(bi(100), sim.Pow10(6))
+		s.Create(4, 3, col, 4, bi(100000000), 0, "gov") // xrp-a: 100 xrp · 2.0 / 100 usdx = 2.0
+		s.Liquidate(7, 4, 3, "gov-keeper-before")
+		s.NextBlock(1, "gov")
+		s.PostPrice(5, sdk.MustNewDecFromStr("1.0"), false) // xrp:usd:30 → CR_liq would be 1.0 < 1.5
+		s.Pending = func(p *cdptypes.Params) string {
+			cp := sim.FindCollateral(p, 3)
+			cp.LiquidationMarketID = cp.SpotMarketID // xrp:usd, still 2.0
+			return "markets-both-spot"
+		}
+		s.NextBlock(1, "gov-liq-market-switched")
+		if len(s.Pre().Cdps) != 1 {
+			out.Violation("cdp-block-liquidation-ignores-the-liquidation-market-in-force: position safe at the price of the liquidation market in force was seized")
+		}
+		if cls, _ := s.Liquidate(7, 4, 3, "gov-keeper-after-switch"); cls == kapp.OK {
+			out.Violation("cdp-keeper-liquidation-ignores-the-liquidation-market-in-force")
+		}
+		s.Pending = func(p *cdptypes.Params) string {
+			sim.FindCollateral(p, 3).LiquidationMarketID = "xrp:usd:30"
+			return "markets-restored"
+		}
+		s.NextBlock(1, "gov-liq-market-restored")
+		if len(s.Pre().Cdps) != 0 {
+			out.Violation("cdp-block-liquidation-ignores-the-liquidation-market-in-force: position under water at the price of the liquidation market in force survived")
+		}
+	}
+	// the liquidation block interval drops from 3 to 1 while a position is under water: "seized when the liquidation
+	// interval comes round" is about the interval in force — it is seized in the very next block, whatever its height
+	{
+		p := sim.DefaultParams()
+		p.LiquidationBlockInterval = 3
+		s := w.NewSeq(out, "c05.op", -8, r.Fork(9108), p)
+		s.NextBlock(1, "gov-interval-3")
+		s.Create(3, 0, new(big.Int).Mul(bi(30), sim.Pow10(8)), 2, bi(10000000), 0, "gov")
+		for (s.Ctx.BlockHeight()+2)%3 == 0 || (s.Ctx.BlockHeight()+1)%3 != 0 { // next block: due under interval 3; the one after: not due
+			s.NextBlock(1, "gov-pad")
+		}
+		s.NextBlock(1, "gov-interval-3-due")
+		s.PostPrice(0, sdk.MustNewDecFromStr("0.1"), false)
+		s.PostPrice(1, sdk.MustNewDecFromStr("0.1"), false)
+		s.Pending = func(p *cdptypes.Params) string { p.LiquidationBlockInterval = 1; return "block-interval" }
+		s.NextBlock(1, "gov-interval-1")
+		if len(s.Pre().Cdps) != 0 {
+			out.Violation("cdp-block-liquidation-ignores-the-liquidation-block-interval-in-force: under-water position not seized in the block after the interval became 1")
+		}
+	}
+}
+
 func main() {
 	out := c.NewOut(c.OutPath())
 	defer out.Close()
@@ -337,8 +484,22 @@ func main() {
 		default:
 			if seq == 2*chunks {
 				directed(w, out, c.NewRng(c.Seed()))
+				govDirected(w, out, c.NewRng(c.Seed()))
 			}
 			s := w.NewSeq(out, "c05.op", seq, r, sim.RandomParams(r))
+			if seq%4 != 0 { // three histories in four see governance parameter changes at block boundaries
+				s.GovPct = 35
+			}
+			s.AfterCase = func(kind string, args []string, pre, post sim.Obs, cls kapp.Class, err error) {
+				if kind == "begin" && cls == kapp.Panic {
+					// "the lowest-ratio CDPs below it are seized when the liquidation interval comes round": not in a block that aborts
+					m := fmt.Sprint(err)
+					if len(m) > 160 {
+						m = m[:160]
+					}
+					out.Violation(fmt.Sprintf("cdp-begin-block-panic seq=%d op=%d: %s", s.No, s.OpNo, m))
+				}
+			}
 			for i := 0; i < nops; i++ {
 				s.Step("boundary")
 			}
